@@ -201,7 +201,7 @@ R_<TG_, TA_>::initialEnter() noexcept {
 		//backup();
 
 		if (applyRequest(currentTransition,
-						 _core.request.destination))
+						 _core.request))
 		{
 			pendingTransition = _core.request;
 			_core.request.clear();
@@ -294,7 +294,7 @@ R_<TG_, TA_>::processTransitions(Transition& currentTransition) noexcept {
 		//backup();
 
 		if (applyRequest(currentTransition,
-						 _core.request.destination))
+						 _core.request))
 		{
 			pendingTransition = _core.request;
 			_core.request.clear();
@@ -329,6 +329,24 @@ R_<TG_, TA_>::applyRequest(const Transition& currentTransition,
 {
 	if (currentTransition != Transition{destination}) {
 		_core.registry.requested = destination;
+
+		return true;
+	} else
+		return false;
+}
+
+// COMMON
+//------------------------------------------------------------------------------
+
+template <typename TG_, typename TA_>
+FFSM2_CONSTEXPR(14)
+bool
+R_<TG_, TA_>::applyRequest(const Transition& currentTransition,
+						   const Transition& request) noexcept
+{
+	// only a request identical to the already accepted transition may be skipped without consulting guards
+	if (currentTransition != request) {
+		_core.registry.requested = request.destination;
 
 		return true;
 	} else
